@@ -6,6 +6,7 @@ def stName : Status → String
   | .alive => "alive" | .closed => "closed" | .dead => "dead"
 
 /-- request: {"side":"ctl"|"sw","chunks":[hex,...]
+              [,"cfg":"default"|"nicira"   the configuration: with "nicira" the controller's OFPT_VENDOR entry is nxVendor]
               [,"raising":[hex,...]   the handlers of these messages raise]
               [,"end":true            after the last chunk the next read finds the end of the stream]}
     →  per-chunk cumulative delivered counts, final delivered, buf, status -/
@@ -19,8 +20,14 @@ def handle (j : J) : Except String J := do
   let fin ← match j.get? "end" with
     | some _ => j.boolean "end"
     | none => pure false
+  let cfg ← match j.get? "cfg" with
+    | some _ => j.string "cfg"
+    | none => pure "default"
+  if cfg ≠ "default" ∧ cfg ≠ "nicira" then throw s!"unknown cfg {cfg}"
+  -- openflow.nicira replaces the OFPT_VENDOR entry of the controller's table; the switch-side table is built per connection
+  let ctlU : Unpack Bytes := if cfg = "nicira" then replaceEntry sliceU 4 (nxVendor sliceU (fun _ => none)) else sliceU
   let feed : CS Bytes → Bytes → CS Bytes :=
-    if side = "ctl" then ctlFeedH sliceU (raisesOn raising) 8 else swFeedH sliceU (raisesOn raising)
+    if side = "ctl" then ctlFeedH ctlU (raisesOn raising) 8 else swFeedH sliceU (raisesOn raising)
   let (final, counts) := chunks.foldl (fun (acc : CS Bytes × List Nat) c =>
       let s' := feed acc.1 c; (s', acc.2 ++ [s'.delivered.length])) (init, [])
   let final := if fin then connEnd final else final
